@@ -11,7 +11,14 @@
    which mirror, routine class by routine class, the __call__ bodies of
    unmarshals/routines.py and marshals/routines.py for the composite routines
    (SubscriptedIterable, SubscriptedMapping, FixedTuple, StructuredType, Union)
-   and delegate leaves to the runtime.  Definitions only. *)
+   and delegate leaves to the runtime.
+
+   Order of hashing: the code hands a GENERATOR to `set` / `frozenset` / `dict` (or uses a dict display), so every
+   element (key) is hashed as soon as it has been converted, before the conversion of the next member is attempted.
+   The set and mapping steps below therefore convert with `hashing key f` (convert, then hash, member by member);
+   `construct_seq` / `construct_map` keep their own (then redundant) test.  The earlier formulation "convert every
+   member, hash afterwards" is kept as `unm_late` / `mar_late` in Model/CoreLate.v, with the exact set of inputs on
+   which the two differ (Proofs/CoreHash.v).  Definitions only. *)
 From Coq Require Import List Arith Bool PeanoNat.
 Import ListNotations.
 
@@ -237,6 +244,15 @@ Definition construct_seq (k : seqkind) (l : list pv) : res pv :=
   | _ => Ok (PSeq k l)
   end.
 
+(* hash-as-produced: a set / frozenset / dict constructor consuming a generator hashes each element (the key of each
+   pair) when it arrives; an unhashable one raises TypeError BEFORE the next member is converted *)
+Definition hash_check {A} (key : A -> pv) (a : A) : res A := if unhashable (key a) then Raise EType else Ok a.
+Definition hashing {A B} (key : B -> pv) (f : A -> res B) (x : A) : res B := bind (f x) (hash_check key).
+Definition hashes (k : seqkind) : bool := match k with KSet | KFrozenset => true | _ => false end.
+(* the member conversion of a subscripted iterable whose origin is k *)
+Definition elem_conv (k : seqkind) (f : pv -> res pv) : pv -> res pv :=
+  if hashes k then hashing (fun v => v) f else f.
+
 (* dict(pairs): a repeated key keeps its first position and takes the last value *)
 Fixpoint dict_set (k v : pv) (d : list (pv * pv)) : list (pv * pv) :=
   match d with
@@ -312,11 +328,11 @@ Fixpoint unm (fuel : nat) (t : ty) (x : pv) {struct fuel} : res pv :=
     | TNone => none_u rt x
     | TSeq k a =>
         bind (load x) (fun d => bind (itervalues d) (fun vs =>
-        bind (mapM (unm n a) vs) (fun rs => construct_seq k rs)))
+        bind (mapM (elem_conv k (unm n a)) vs) (fun rs => construct_seq k rs)))
     | TMap k kt vt =>
         bind (load x) (fun d => bind (iteritems d) (fun kvs =>
-        bind (mapM (fun kv => bind (unm n kt (fst kv)) (fun k' =>
-                              bind (unm n vt (snd kv)) (fun v' => Ok (k', v')))) kvs)
+        bind (mapM (hashing fst (fun kv => bind (unm n kt (fst kv)) (fun k' =>
+                                           bind (unm n vt (snd kv)) (fun v' => Ok (k', v'))))) kvs)
              (fun rs => construct_map k rs)))
     | TTuple ts =>
         bind (load x) (fun d => bind (itervalues d) (fun vs =>
@@ -356,8 +372,8 @@ Fixpoint mar (fuel : nat) (t : ty) (x : pv) {struct fuel} : res pv :=
     | TSeq k a => bind (itervalues x) (fun vs => bind (mapM (mar n a) vs) (fun rs => Ok (PSeq KList rs)))
     | TMap k kt vt =>
         bind (iteritems x) (fun kvs =>
-        bind (mapM (fun kv => bind (mar n kt (fst kv)) (fun k' =>
-                              bind (mar n vt (snd kv)) (fun v' => Ok (k', v')))) kvs)
+        bind (mapM (hashing fst (fun kv => bind (mar n kt (fst kv)) (fun k' =>
+                                           bind (mar n vt (snd kv)) (fun v' => Ok (k', v'))))) kvs)
              (fun rs => construct_map KDict rs))
     | TTuple ts =>
         bind (itervalues x) (fun vs =>
